@@ -179,6 +179,138 @@ fn rec(api: &str, inputs: &[Vec<u8>], stages: &[(Tok, Cmp)]) -> Value {
     }
 }
 
+
+// ---------------------------------------------------------------------------
+// LARGE-INPUT class.  Line-structured inputs of 2..4 blocks of 600..2000 unique
+// lines each; the other inputs permute / duplicate / delete whole blocks and
+// carry a few line edits.  The inputs are a pure function of the case seed, so
+// the record does not carry them (the second process regenerates them); per
+// hunk it carries kind, ranges and a 31-bit FNV-1a hash of every slice.
+
+fn fnv31(b: &[u8]) -> u32 {
+    let mut h: u32 = 0x811c_9dc5;
+    for &x in b {
+        h ^= x as u32;
+        h = h.wrapping_mul(0x0100_0193);
+    }
+    h & 0x7fff_ffff
+}
+
+pub struct BigCase {
+    pub api: &'static str,
+    pub stages: Vec<(Tok, Cmp)>,
+    pub inputs: Vec<Vec<u8>>,
+    pub shape: Value,
+}
+
+pub fn big_case(case_seed: u64, lo: usize, hi: usize) -> BigCase {
+    let mut rng = Rng::new(case_seed ^ 0xB16_D1FF);
+    let n_blocks = rng.range(2, 4);
+    // half of the cases use blocks of one size: which block a reordering keeps matched is then
+    // decided by tie-breaking alone, the most seed-sensitive situation
+    let one_size = rng.range(lo, hi);
+    let same = rng.chance(1, 2);
+    let sizes: Vec<usize> = (0..n_blocks).map(|_| if same { one_size } else { rng.range(lo, hi) }).collect();
+    let n_inputs = rng.range(2, 3);
+    let line = |b: usize, i: usize| -> Vec<u8> {
+        // unique per (block, index); some lines have several words
+        if i % 7 == 3 { format!("b{b} l{i} x\n").into_bytes() } else { format!("b{b}l{i}\n").into_bytes() }
+    };
+    let mut orders: Vec<Vec<usize>> = vec![(0..n_blocks).collect()];
+    for _ in 1..n_inputs {
+        let mut o: Vec<usize> = (0..n_blocks).collect();
+        match rng.below(5) {
+            0 => o.rotate_left(1),                       // A+B -> B+A
+            1 => rng.shuffle(&mut o),
+            2 => {
+                o.rotate_left(1);
+                let d = *rng.pick(&o);
+                o.push(d);                               // a duplicated block
+            }
+            3 => {
+                rng.shuffle(&mut o);
+                if o.len() > 2 {
+                    o.pop();                             // a deleted block
+                }
+            }
+            _ => {
+                o.reverse();
+            }
+        }
+        orders.push(o);
+    }
+    let mut edits = vec![];
+    let mut inputs: Vec<Vec<u8>> = vec![];
+    for (k, o) in orders.iter().enumerate() {
+        let mut lines: Vec<Vec<u8>> = vec![];
+        for &b in o {
+            for i in 0..sizes[b] {
+                lines.push(line(b, i));
+            }
+        }
+        // a few line edits in the non-base inputs
+        let n_edits = if k == 0 { 0 } else { rng.below(6) };
+        for e in 0..n_edits {
+            let at = rng.below(lines.len());
+            match rng.below(3) {
+                0 => {
+                    lines.remove(at);
+                }
+                1 => lines.insert(at, format!("new{k}_{e}\n").into_bytes()),
+                _ => lines[at] = format!("chg{k}_{e}\n").into_bytes(),
+            }
+        }
+        edits.push(n_edits);
+        let mut text: Vec<u8> = lines.concat();
+        if rng.chance(1, 6) {
+            text.pop(); // missing final newline
+        }
+        inputs.push(text);
+    }
+    let (api, stages) = if rng.chance(1, 3) {
+        ("for_tokenizer", vec![(Tok::Word, Cmp::Exact), (Tok::Nonword, Cmp::Exact)])
+    } else if rng.chance(1, 2) {
+        ("by_line", vec![(Tok::Line, Cmp::Exact)])
+    } else {
+        ("for_tokenizer", vec![(Tok::Line, Cmp::Exact)])
+    };
+    BigCase { api, stages, inputs, shape: json!({"blocks": sizes, "orders": orders, "edits": edits}) }
+}
+
+/// kind, ranges and slice hashes of every hunk
+pub fn compact_json(d: &ContentDiff) -> Value {
+    Value::Array(
+        iter_zip(d)
+            .map(|(k, ranges, hashes)| json!({"k": k, "r": ranges, "x": hashes}))
+            .collect(),
+    )
+}
+
+fn iter_zip<'a>(d: &'a ContentDiff) -> impl Iterator<Item = (u8, Vec<[usize; 2]>, Vec<u32>)> + 'a {
+    std::iter::zip(d.hunk_ranges(), d.hunks()).map(|(r, h)| {
+        (
+            kind(r.kind),
+            r.ranges.iter().map(|x| [x.start, x.end]).collect(),
+            h.contents.iter().map(|c| fnv31(c)).collect(),
+        )
+    })
+}
+
+fn big_rec(case_seed: u64, lo: usize, hi: usize) -> Value {
+    let c = big_case(case_seed, lo, hi);
+    let r = catch(|| {
+        let d1 = build(c.api, &c.inputs, &c.stages);
+        let d2 = build(c.api, &c.inputs, &c.stages);
+        (compact_json(&d1), compact_json(&d2))
+    });
+    let lens: Vec<usize> = c.inputs.iter().map(|i| i.len()).collect();
+    match r {
+        Ok((h1, h2)) => json!({"op":"bigdiff","case":case_seed,"lo":lo,"hi":hi,"api":c.api,
+            "stages":stages_json(&c.stages),"shape":c.shape,"lens":lens,"h1":h1,"h2":h2}),
+        Err(e) => json!({"op":"panic","call":"bigdiff","case":case_seed,"msg":e}),
+    }
+}
+
 const LINE_VOCAB: [&[u8]; 6] = [b"a", b"b", b"a b", b"", b"x  y", b"\ta"];
 
 pub fn record(opts: &Opts) -> Result<(), String> {
@@ -288,6 +420,13 @@ pub fn record(opts: &Opts) -> Result<(), String> {
             }
         }
     }
+    // D. LARGE-INPUT class (hash-compact records)
+    let n_big = opts.usize("big", 30);
+    let (lo, hi) = (opts.usize("biglo", 600), opts.usize("bighi", 2000));
+    for i in 0..n_big {
+        out.emit(&big_rec(seed.wrapping_mul(1_000_003).wrapping_add(i as u64), lo, hi));
+    }
+    out.emit(&json!({"op":"domain","kind":"big","count":n_big,"lo":lo,"hi":hi}));
     out.finish();
     Ok(())
 }
@@ -309,6 +448,13 @@ pub fn again(opts: &Opts) -> Result<(), String> {
             match catch(|| ranges_json(&build(&api, &inputs, &stages))) {
                 Ok(h3) => r["h3"] = h3,
                 Err(e) => r = json!({"op":"panic","call":"again","inp":texts_json(&inputs),"msg":e}),
+            }
+        }
+        if r["op"] == "bigdiff" {
+            let c = big_case(r["case"].as_u64().unwrap(), r["lo"].as_u64().unwrap() as usize, r["hi"].as_u64().unwrap() as usize);
+            match catch(|| compact_json(&build(c.api, &c.inputs, &c.stages))) {
+                Ok(h3) => r["h3"] = h3,
+                Err(e) => r = json!({"op":"panic","call":"bigdiff-again","case":r["case"],"msg":e}),
             }
         }
         out.emit(&r);
